@@ -469,6 +469,7 @@ impl Scenario for Dual {
         cov.declare("layout_x_key_end_to_end", NLAYOUT_OBJS * NKEYS);
         cov.fault_declare("prefix_byte_sent_twice");
         cov.fault_declare("stray_prefix_byte");
+        cov.fault_declare("command_reply_inside_a_key_sequence");
         cov.probe_declare("clear_called_inside_a_key_sequence");
         cov.probe_declare("obs_both_hosts_decoded_a_key");
         cov.probe_declare("obs_only_set1_knows_the_code");
@@ -508,6 +509,13 @@ impl Scenario for Dual {
                 } else if stutter && j < limit && rng.chance(1, 15) {
                     let f = if pfx != 0 && rng.bool() { BFault::Dup(0) } else { BFault::Ins(0, if rng.bool() { 0xE0 } else { 0xE1 }) };
                     o.op = Op::Key { pfx, code, brk, fault: f };
+                } else if stutter && j < limit && rng.chance(1, 15) {
+                    // the keyboard's reply to a host command (set LEDs, echo, resend) lands in the
+                    // middle of a key sequence: before it or right after its E0/E1 prefix. Replies
+                    // pass the controller unchanged and are no key in either set.
+                    let reply = *rng.pick(&[0xFAu8, 0xFE, 0xEE, 0xFC, 0xFD]);
+                    let at = if pfx != 0 { rng.below(2) as u8 } else { 0 };
+                    o.op = Op::Key { pfx, code, brk, fault: BFault::Ins(at, reply) };
                 }
             }
         }
@@ -572,6 +580,11 @@ impl Scenario for Dual {
                     any_fault = true;
                     (apply_bfault(&base2, fault).0, None)
                 }
+                BFault::Ins(at, b) if matches!(b, 0xFA | 0xFE | 0xEE | 0xFC | 0xFD) && (at == 0 || (at == 1 && pfx != 0)) => {
+                    env.cov.fault("command_reply_inside_a_key_sequence");
+                    any_fault = true;
+                    (apply_bfault(&base2, fault).0, None)
+                }
                 BFault::ClearAt(n) => {
                     env.cov.probe("clear_called_inside_a_key_sequence");
                     (base2.clone(), Some(n as usize))
@@ -606,6 +619,8 @@ impl Scenario for Dual {
                         2
                     }
                 }
+                // a reply right after the prefix uses the prefix up: the code byte is decoded unprefixed
+                BFault::Ins(1, b) if matches!(b, 0xFA | 0xFE | 0xEE | 0xFC | 0xFD) && pfx != 0 => 0,
                 _ => pfx as usize,
             };
             let ctxname = CTX1_NAMES[eff_pfx];
